@@ -142,6 +142,66 @@ inductive Step where
   | addrs (l : List Addr)
   | loc (ip : String)
 
+/-! ### `http::Uri` requests: `u=<uri>` (http 1), `v=<uri>` (http 0.2)
+
+The op grammar is a subset of what `http::Uri` parses, written so that both sides agree on what is a
+well-formed op without consulting the crate under test:
+`<scheme>://<host>[:<port>][/<path>]` (absolute form), `<host>[:<port>]` (authority form, no scheme),
+`/<path>` (no host: hostname `""`).  scheme = `[a-z][a-z0-9+.-]*` (≤ 64), host = `[a-z0-9.-]+` or `[::1]`
+(brackets are part of the URI's host), port = canonical decimal ≤ 65535, path = lower-case letters, digits,
+`.`, `_`, `-` and `/`. -/
+
+def isLowerAlpha (c : Char) : Bool := decide ('a' ≤ c ∧ c ≤ 'z')
+def isHostChar (c : Char) : Bool := isLowerAlpha c || isDigit c || c == '.' || c == '-'
+def isSchemeChar (c : Char) : Bool := isLowerAlpha c || isDigit c || c == '+' || c == '.' || c == '-'
+def isPathChar (c : Char) : Bool := isHostChar c || c == '/' || c == '_'
+
+def parsePortCanon (cs : List Char) : Option Nat :=
+  match cs with
+  | [] => none
+  | c :: t =>
+    if !(cs.all isDigit) || (c == '0' && !t.isEmpty) || cs.length > 5 then none
+    else match digitsVal cs 0 with
+      | some n => if n ≤ 65535 then some n else none
+      | none => none
+
+/-- `<host>[:<port>]` -/
+def parseAuthority (cs : List Char) : Option (String × Option Nat) :=
+  let (h, rest) : List Char × List Char :=
+    if cs.take 5 == "[::1]".toList then (cs.take 5, cs.drop 5)
+    else (cs.takeWhile (· != ':'), cs.dropWhile (· != ':'))
+  if h.isEmpty || !(h == "[::1]".toList || h.all isHostChar) then none else
+  match rest with
+  | [] => some (String.ofList h, none)
+  | ':' :: p => (parsePortCanon p).map fun n => (String.ofList h, some n)
+  | _ => none
+
+def parseUri (s : String) : Option UriParts :=
+  let cs := s.toList
+  match cs with
+  | [] => none
+  | '/' :: _ => if cs.all isPathChar then some { scheme := none, host := none, port := none } else none
+  | c0 :: _ =>
+    let pre := cs.takeWhile (· != ':')
+    let rest := cs.drop pre.length
+    if rest.take 3 == "://".toList then
+      let after := rest.drop 3
+      let auth := after.takeWhile (· != '/')
+      let path := after.drop auth.length
+      if isLowerAlpha c0 && pre.all isSchemeChar && pre.length ≤ 64 && path.all isPathChar then
+        (parseAuthority auth).map fun (h, p) => { scheme := some (String.ofList pre), host := some h, port := p }
+      else none
+    else (parseAuthority cs).map fun (h, p) => { scheme := none, host := some h, port := p }
+
+/-- the request behind a host token: `s=` / `t=` strings, `u=` / `v=` URIs (the source's scheme table) -/
+def hostOfToken (subst : String → Option String) (tok : String) : Option Host :=
+  match (stripPrefix "s=" tok).orElse (fun _ => stripPrefix "t=" tok) with
+  | some s => (subst s).map hostOfString
+  | none =>
+    match (stripPrefix "u=" tok).orElse (fun _ => stripPrefix "v=" tok) with
+    | some s => ((subst s).bind parseUri).map (hostOfUri ActixNet.Src.tlsSchemePorts)
+    | none => none
+
 structure ConnOp where
   via : String
   /-- how the service is obtained from its factory (`via` = `<base>[:<path>]`, default `s`) -/
@@ -202,8 +262,8 @@ def parseConnOp (c : ConnCase) (ws : List String) : Option ConnOp :=
           | none => none
     -- `s=` a `String` request, `t=` a `&'static str` request (same `Host` parsing), `h=` a custom `Host` impl
     let host? : Option Host :=
-      match (stripPrefix "s=" host).orElse (fun _ => stripPrefix "t=" host) with
-      | some s => (c.subst s).map hostOfString
+      match hostOfToken c.subst host with
+      | some h => some h
       | none =>
         match stripPrefix "h=" host with
         | some s =>
@@ -593,8 +653,8 @@ def runTconn (ws : List String) : String :=
     if !((lib == "r" || lib == "o") && (srv == "r" || srv == "o") && (ca == "good" || ca == "bad")) then "bad-op" else
     let c0 : ConnCase := { eps := [] }
     let host? : Option Host :=
-      match (stripPrefix "s=" host).orElse (fun _ => stripPrefix "t=" host) with
-      | some s => (c0.subst s).map hostOfString
+      match hostOfToken c0.subst host with
+      | some h => some h
       | none =>
         match stripPrefix "h=" host with
         | some s =>
